@@ -304,6 +304,21 @@ impl Api {
         }
         r
     }
+    /// a sequence of server operations on one long-lived in-memory ServerSetup (see Suite::server_session)
+    pub fn server_session(&self, setup: &[u8], files: &[Vec<u8>], ops: &[SrvOp]) -> R<Vec<R<Vec<Vec<u8>>>>> {
+        let r = monitored("server_session", || self.s.server_session(setup, files, ops));
+        if self.rec_on() {
+            let fl: Vec<String> = files.iter().map(hex::encode).collect();
+            self.record(
+                "server_session",
+                None,
+                vec![Arg::B(setup.to_vec()), Arg::O(Some(hex::encode(serde_json::to_vec(&fl).unwrap()))), Arg::O(Some(hex::encode(serde_json::to_vec(ops).unwrap())))],
+                r.clone().map(|v| v.iter().map(|x| match x { Ok(parts) => parts.iter().map(hex::encode).collect::<Vec<_>>().join("|"), Err(e) => format!("Err({:?})", e) }).collect()),
+                vec![],
+            );
+        }
+        r
+    }
     /// the whole honest flow with in-memory state and the given reload plan (see Suite::flow_in_memory)
     pub fn flow_in_memory(&self, t: &mut Tape, pw: &[u8], cid: &[u8], ctx: Ob, idu: Ob, ids: Ob, plan: &[Vec<Codec>; 6]) -> Result<FlowOut, (usize, E)> {
         let ts = t.spec();
@@ -561,6 +576,13 @@ pub fn reexec(c: &CallRec) -> (Result<Vec<String>, E>, Vec<String>) {
             );
             log = l;
             h2(r)
+        }
+        "server_session" => {
+            let fl: Vec<String> = serde_json::from_slice(&a_o(&a[1]).unwrap_or_default()).unwrap_or_default();
+            let files: Vec<Vec<u8>> = fl.iter().map(|h| hex::decode(h).unwrap_or_default()).collect();
+            let ops: Vec<SrvOp> = serde_json::from_slice(&a_o(&a[2]).unwrap_or_default()).unwrap_or_default();
+            api.server_session(&a_b(&a[0]), &files, &ops)
+                .map(|v| v.iter().map(|x| match x { Ok(parts) => parts.iter().map(hex::encode).collect::<Vec<_>>().join("|"), Err(e) => format!("Err({:?})", e) }).collect())
         }
         "flow_in_memory" => {
             let plan_txt = String::from_utf8(a_o(&a[5]).unwrap_or_default()).unwrap_or_default();
